@@ -118,6 +118,9 @@ def verify_function(ctx, key, c=None, only_case=None):
                       bind = None
                   for f in lemma_facts(ex, ln, st, bind):
                       st.assume(f)
+              if c.ghost.get("fs"):
+                  from .lib_obj import FSV, FS_SORT
+                  st.ghost["fs"] = FSV(z3.Const(fresh_name("fs0"), FS_SORT))
               ex.oblig("pre_sat", "requires", st, z3.BoolVal(True), expect="sat")
               entry = st.fork()
               fr.entry_state = entry
